@@ -559,7 +559,7 @@ func checkC04(c *Check) {
 			c.Cond(want["Context"] && want["ResponseWriter"] && want["Request"], key+":request-services", p.FuncPos(nc), "Context, http.ResponseWriter (the wrapper) and *http.Request are mapped on the new request scope", "the per-request services are not all mapped on the request's own scope")
 			// … and nothing else: a service of the application seeded into every request scope shadows a later
 			// registration on the application (own values are consulted before the parent's)
-			nMap := 0
+			nMap, nOwn := 0, 0
 			allInstrs(nc, func(in ssa.Instruction) {
 				ci, ok := in.(ssa.CallInstruction)
 				if !ok || !ci.Common().IsInvoke() || !onCtxInj(ci.Common().Value) {
@@ -567,9 +567,26 @@ func checkC04(c *Check) {
 				}
 				switch ci.Common().Method.Name() {
 				case "Map", "MapTo", "Set":
+					// a value of a type the framework itself declares, read from the context's own field (its
+					// Params, its *Request): no registration of the application for another purpose can exist
+					// under such a type, and nothing is copied from the application scope
+					if ci.Common().Method.Name() == "Map" && appendsOnly(ci.Common().Args[0], func(v ssa.Value) bool {
+						v = strip(v)
+						t := v.Type()
+						nt, isN := derefT(t).(*types.Named)
+						if !isN || nt.Obj().Pkg() == nil || nt.Obj().Pkg() != p.Pkgs["flamego"].Types {
+							return false
+						}
+						r, ns, ok := fieldPath(v)
+						return ok && len(ns) == 1 && isCtx(r)
+					}) {
+						nOwn++
+						return
+					}
 					nMap++
 				}
 			})
+			c.Extra["framework_typed_request_services"] = nOwn
 			extra := nMap > 3
 			if cc := p.Meth("flamego", "Flame", "createContext"); cc != nil {
 				for _, ci := range callsNamed(cc, "flamego.newContext") {
